@@ -79,8 +79,6 @@ def compare(m, lcf, fmt):
     for k in ('name', 'assets', 'associations', 'attackers'):
         if d0[k] != d1[k]:
             return 'after save/load (%s) %s differ: %r became %r' % (fmt, k, d0[k], d1[k])
-    if list(d0['assets']) != list(d1['assets']) and fmt == 'json':
-        return 'asset order changed by a JSON round trip'
     if l._to_dict() != td0:
         return '_to_dict of the loaded model differs from the original (%s)' % fmt
     if c1 != c2:
@@ -133,6 +131,7 @@ def body_attrs(cube, **kw):
     xa, xl = bool(kw['xa']), bool(kw['xl'])
     l0, l1, l2 = bool(kw['l0']), bool(kw['l1']), bool(kw['l2'])
     att = idx(kw['att'], 3)
+    do = idx(kw['do'], 3) if 'do' in kw else 0
     with notrace(), reclimit():
         lg, lcf = langs.build_lang(langs.L_INH())
         m, assets = _base(lcf, None, None, 'srv', True)
@@ -141,6 +140,8 @@ def body_attrs(cube, **kw):
         if dg is not None:
             assets[0].dG = dg
             assets[2].dA = 0.5
+        if do:
+            assets[1].dP = [None, 1.0, 0.5][do]     # O.dP defaults to 0, G1.dP to 1: 1.0 equals the other type's default
         if xa:
             assets[0].extras = {'pos': {'x': 1, 'y': 2.5}, 'tag': 'n'}
         links = []
@@ -193,7 +194,7 @@ def body_hand(cube, **kw):
         got = describe(m)
         if isinstance(got, str):
             return got
-        want_assets = {0: {'name': 'zero', 'type': 'O', 'defenses': {}, 'extras': {}},
+        want_assets = {0: {'name': 'zero', 'type': 'O', 'defenses': {'dP': 0.0}, 'extras': {}},
                        4: {'name': 'four', 'type': 'G1', 'defenses': {'dP': 0.25, 'dA': 0.0, 'dG': 0.0}, 'extras': {}},
                        2: {'name': 'G2:2', 'type': 'G2', 'defenses': {'dP': 1.0, 'dA': 0.0}, 'extras': {}}}
         if got['assets'] != want_assets:
@@ -216,11 +217,11 @@ def queries(tier):
                                ({}, {'fmt': 1, 'i0': 2, 'i1': 2, 'nm': 3, 'a2': False, 'att': 1})],
                     bound='L_INH model: asset 0 (G1) with id from %s and name from %r, asset 1 (O) with id from %s (0 not first, gaps, negative), optional third asset, '
                           '0-2 attackers with several entry points, one L link; formats %s' % (ID0, NAMES, ID1, FMT)))
-    ps = [I('fmt', 0, 2), I('dp', 0, 2), I('dg', 0, 1), B('xa'), B('xl'), B('l0'), B('l1'), B('l2'), I('att', 0, 2)]
-    qs.append(Query(name='attrs', body=body_attrs, params=ps, split=['fmt', 'xl'], timeout=500,
-                    witnesses=[({}, {'fmt': 0, 'dp': 2, 'dg': 1, 'xa': True, 'xl': True, 'l0': True, 'l1': True, 'l2': True, 'att': 2}),
-                               ({}, {'fmt': 2, 'dp': 1, 'dg': 0, 'xa': True, 'xl': False, 'l0': True, 'l1': True, 'l2': False, 'att': 0})],
-                    bound='3-asset L_INH model: defense picks dP %s, dG %s (+ dA on the third asset), asset extras, association extras, every subset of links '
+    ps = [I('fmt', 0, 2), I('dp', 0, 2), I('dg', 0, 1), I('do', 0, 2), B('xa'), B('xl'), B('l0'), B('l1'), B('l2'), I('att', 0, 2)]
+    qs.append(Query(name='attrs', body=body_attrs, params=ps, split=['fmt', 'xl'], timeout=500, pre=['do == 0 or (l2 and not l1)'],
+                    witnesses=[({}, {'fmt': 0, 'dp': 2, 'dg': 1, 'do': 1, 'xa': True, 'xl': True, 'l0': True, 'l1': False, 'l2': True, 'att': 2}),
+                               ({}, {'fmt': 2, 'dp': 1, 'dg': 0, 'do': 0, 'xa': True, 'xl': False, 'l0': True, 'l1': True, 'l2': False, 'att': 0})],
+                    bound='3-asset L_INH model: defense picks dP %s, dG %s (+ dA on the third asset; dP of the O asset, same name as the dP of G1 but default 0, left / set to 1.0 / 0.5), asset extras, association extras, every subset of links '
                           'L (two members in one field), Dup_G1_O + Dup_G2_O (duplicate-named classes), L2; 0-2 attackers; formats %s' % (DPV, DGV, FMT)))
     ps = [I('perm', 0, 5), B('short'), I('via', 0, 3)]
     qs.append(Query(name='hand', body=body_hand, params=ps, timeout=300,
